@@ -113,6 +113,19 @@ class Schema:
         sz = self.scalar_size(t)
         return sz, sz
 
+    def struct_arg_leaves(self, t, base=0):
+        """[(offset, scalar type)] of the leaves of a struct in declaration order = the argument list of the generated <Struct>_create /
+        _assign; None when the struct (or a nested one) has a fixed-length array member"""
+        r = []
+        for _, off, ft, _ in self.struct_layout(t)[2]:
+            if isinstance(ft, tuple): return None
+            if ft in self.structs:
+                x = self.struct_arg_leaves(ft, base + off)
+                if x is None: return None
+                r += x
+            else: r.append((base + off, ft))
+        return r
+
     def struct_leaves(self, t, base=0):
         """[(offset, size)] of the leaf scalars of an inline type in declaration order (padding excluded)."""
         if isinstance(t, tuple):
@@ -243,10 +256,15 @@ def corpus():
         Struct('A64', [('q', 'ubyte')], force_align=64),
         Struct('A128', [('h', 'short')], force_align=128),
         Struct('A256', [('w', 'int')], force_align=256),
+        # a nested struct that is NOT the last member (and two levels of it): members after it take the arguments after ALL of its leaves
+        Struct('P2', [('x', 'short'), ('y', 'int')]),
+        Struct('Mk', [('at', 'P2'), ('id', 'int'), ('k', 'ubyte')]),
+        Struct('Mk2', [('a', 'ubyte'), ('m', 'Mk'), ('p', 'P2'), ('z', 'ushort'), ('q', 'B3'), ('e', 'double')]),
         Table('St', [
             Field('b1', 'B1'), Field('d8', 'D8'), Field('a16', 'A16'), Field('arr', 'Arr'), Field('vb3', '[B3]'),
             Field('va16', '[A16]'), Field('vd8', '[D8]'), Field('h2', 'H2'), Field('a64', 'A64'), Field('va64', '[A64]'),
-            Field('tag', 'ubyte', '9'), Field('a128', 'A128'), Field('a256', 'A256'), Field('va256', '[A256]')]),
+            Field('tag', 'ubyte', '9'), Field('a128', 'A128'), Field('a256', 'A256'), Field('va256', '[A256]'),
+            Field('mk', 'Mk'), Field('mk2', 'Mk2'), Field('vmk', '[Mk]'), Field('vmk2', '[Mk2]')]),
     ], 'St'))
     # 3. tables of tables, vectors of tables and strings, recursion, explicit permuted ids, deprecated field
     t3 = Table('Node', [
@@ -843,7 +861,9 @@ class ScriptGen:
                 madds.append('i/%d/%d/%d/%s' % (f.id, sz, al, hx(v.a))); kept.append((f, v))
             elif k == 'struct':
                 sz, al = s.inline_size_align(f.type)
-                self.h.append('Ga:%d:%d:%s' % (t, j, hx(v.a)))
+                by_args = s.struct_arg_leaves(f.type) and rng.random() < 0.5      # <T>_<f>_create(B, leaves..) instead of _add(B, pointer)
+                self.h.append('%s:%d:%d:%s' % ('GA' if by_args else 'Ga', t, j, hx(v.a)))
+                if by_args: self.stat('struct_field_create_by_args')
                 madds.append('i/%d/%d/%d/%s' % (f.id, sz, al, hx(v.a))); kept.append((f, v))
             elif k == 'union':
                 r = None if v.b is None else self.node(v.b)
@@ -939,7 +959,7 @@ class ScriptGen:
             elif k == 'vec' and not f.nested and rng.random() < 0.6:
                 v = Node('vec', list(v.a), v.b)
                 sz, al = s.inline_size_align(v.b)
-                st = rng.choice(['c', 'p', 'e', 'a', 't'])
+                st = rng.choice(['c', 'p', 'e', 'a', 't'] + (['k', 'k', 'k'] if v.b in s.structs and s.struct_arg_leaves(v.b) else []))
                 data = b''.join(v.a)
                 self.h.append('GV:%d:%d:%s:%d:%s' % (t, j, st, len(v.a), hx(data))); self.stat('GV' + st)
                 self.m.append('V:%d:%d:%d:%d:%s' % (sz, al, UOFFSET_MAX // sz, len(v.a), hx(data))); r = self.new(); self.opaque.add(r)
@@ -1091,7 +1111,24 @@ class ScriptGen:
 
 def harness_line(g):
     verb = 'buildd ' if getattr(g, 'default_emitter', False) else 'buildm ' if getattr(g, 'moving_alloc', False) else 'build '
-    return verb + ' '.join(g.h)
+    pre = getattr(g, 'abandon', None)
+    return verb + (' '.join(pre) + ' Z ' if pre else '') + ' '.join(g.h)
+
+
+def abandon_ops(rng):
+    """a build abandoned in the middle: strings, then 1..3 tables opened inside each other with inline and offset fields of random ids added and
+    none of them ended; followed by flatcc_builder_reset (op Z) the builder must behave like a fresh one"""
+    ops = ['X:%d:%d:-' % (rng.choice([0, 1]), rng.choice([0, 0, 16])), 'B:-:%d:%d' % (rng.choice([0, 8]), rng.choice([0, 2]))]
+    nstr = rng.choice([0, 1, 2])
+    for i in range(nstr): ops.append('S:c:' + bytes(rng.randrange(1, 256) for _ in range(rng.choice([1, 5, 40]))).hex())
+    for d in range(rng.choice([1, 1, 2, 3])):
+        ops.append('Ts:80')
+        for fid in rng.sample(range(80), rng.choice([1, 3, 8, 25])):
+            if nstr and rng.random() < 0.4: ops.append('To:%d:%d' % (fid, rng.randrange(nstr)))
+            else:
+                z = rng.choice([1, 2, 4, 8, 16])
+                ops.append('Ti:a:%d:%d:%d:%s' % (fid, z, min(z, 8), bytes(rng.randrange(1, 256) for _ in range(z)).hex()))
+    return ops
 def model_line(g): return 'run ' + ' '.join(g.m)
 
 
@@ -1544,6 +1581,16 @@ def gen_glue_build(s):
                 elif k == 'struct' and op == 'Ga':
                     w('    case %d: { %s_t v; memcpy(&v, d, sizeof(v)); rc = %s_%s_add(B, &v); } break;' % (i * 1000 + j, fl.type, tn, fl.name))
         w('  } free(d); return rc; }')
+    # struct field BY ARGUMENTS: <T>_<f>_create(B, every leaf of the struct in declaration order)
+    w('  if (!strcmp(f[0], "GA")) { int rc = -1; n = hx_decode(f[3], &d); switch (key) {')
+    for i, tn in enumerate(tabs):
+        for j, fl in enumerate(s.live_fields(tn)):
+            if s.kind(fl.type) != 'struct': continue
+            lv = s.struct_arg_leaves(fl.type)
+            if not lv: continue
+            decl = ' '.join('%s a%d; memcpy(&a%d, d + %d, sizeof(a%d));' % (ctype(mt), k, k, off, k) for k, (off, mt) in enumerate(lv))
+            w('    case %d: { %s rc = %s_%s_create(B, %s); } break;' % (i * 1000 + j, decl, tn, fl.name, ', '.join('a%d' % k for k in range(len(lv)))))
+    w('  } free(d); return rc; }')
     w('  if (!strcmp(f[0], "Go")) { switch (key) {')
     for i, tn in enumerate(tabs):
         for j, fl in enumerate(s.live_fields(tn)):
@@ -1631,6 +1678,11 @@ def gen_glue_build(s):
                 w('      case \'e\': rc = %s_start(B); if (!rc) { %s *q_ = %s_extend(B, cnt); if (!q_ && cnt) rc = -1; else if (cnt) memcpy(q_, d, cnt * %d); } if (!rc) rc = %s_end(B); break;' % (P, et, P, esz, P))
                 w('      case \'a\': rc = %s_start(B); if (!rc) { size_t h = cnt / 2; if (h && !%s_append(B, p_, h)) rc = -1; if (cnt - h && !%s_append(B, p_ + h, cnt - h)) rc = -1; } if (!rc) rc = %s_end(B); break;' % (P, P, P, P))
                 w('      case \'t\': rc = %s_start(B); if (!rc && cnt) { if (!%s_append(B, p_, cnt) || !%s_push(B, p_) || %s_truncate(B, 1)) rc = -1; } if (!rc) rc = %s_end(B); break;' % (P, P, P, P, P))
+                lv = s.struct_arg_leaves(e) if e in s.structs else None
+                if lv:      # <T>_<f>_push_create(B, every leaf of the element struct): by arguments
+                    decl = ' '.join('%s a%d; memcpy(&a%d, d + i_ * %d + %d, sizeof(a%d));' % (ctype(mt), k, k, esz, off, k) for k, (off, mt) in enumerate(lv))
+                    w('      case \'k\': rc = %s_start(B); for (i_ = 0; !rc && i_ < cnt; ++i_) { %s if (!%s_push_create(B, %s)) rc = -1; } if (!rc) rc = %s_end(B); break;'
+                      % (P, decl, P, ', '.join('a%d' % k for k in range(len(lv))), P))
                 w('    } } break;')
     w('  } free(d); push_reg(0); return rc; }')
     w('  if (!strcmp(f[0], "GW")) { static char *el_[4096]; int ne = split_ch(f[3], \',\', el_, 4096), k_, rc = -1; switch (key) {')
